@@ -381,3 +381,62 @@ pub fn init_pool() {
 
 /// Cap on failures kept in memory per check (all are *counted* by the checks themselves).
 pub const MAX_KEPT_FAILURES: usize = 20_000;
+
+// ------------------------------------------------------------------------------------------
+// watchdog: a case that does not terminate is a violation (hang), not a stuck check
+// ------------------------------------------------------------------------------------------
+use std::sync::Mutex;
+static WATCH: Mutex<Vec<Option<(Instant, String, String)>>> = Mutex::new(Vec::new());
+thread_local! {
+    static WATCH_SLOT: std::cell::Cell<usize> = const { std::cell::Cell::new(usize::MAX) };
+}
+
+pub struct WatchGuard(usize);
+impl Drop for WatchGuard {
+    fn drop(&mut self) {
+        if let Ok(mut w) = WATCH.lock() {
+            w[self.0] = None;
+        }
+    }
+}
+
+/// Register the case the current thread is working on. `case` is a JSON string used as the
+/// replay file when the case exceeds the limit.
+pub fn watch(property: &str, case: impl FnOnce() -> String) -> WatchGuard {
+    let slot = WATCH_SLOT.with(|s| {
+        if s.get() == usize::MAX {
+            let mut w = WATCH.lock().unwrap();
+            w.push(None);
+            s.set(w.len() - 1);
+        }
+        s.get()
+    });
+    WATCH.lock().unwrap()[slot] = Some((Instant::now(), property.to_string(), case()));
+    WatchGuard(slot)
+}
+
+pub fn start_watchdog(limit_s: u64) {
+    std::thread::spawn(move || loop {
+        std::thread::sleep(std::time::Duration::from_millis(500));
+        let hit = {
+            let w = WATCH.lock().unwrap();
+            w.iter()
+                .flatten()
+                .find(|(t, _, _)| t.elapsed().as_secs() >= limit_s)
+                .cloned()
+        };
+        if let Some((_, property, case)) = hit {
+            let dir = verif_dir().join("replays").join(&property);
+            let _ = std::fs::create_dir_all(&dir);
+            let path = dir.join("hang.json");
+            let doc = format!(
+                "{{\"property\": \"{}\", \"key\": \"hang\", \"case\": {}, \"detail\": \"case did not terminate within {} s\"}}",
+                property, case, limit_s
+            );
+            let _ = std::fs::write(&path, doc);
+            println!("VIOLATION property={} replay={}", property, path.display());
+            println!("  key=hang: the case did not terminate within {} s", limit_s);
+            std::process::exit(1);
+        }
+    });
+}
